@@ -18,6 +18,7 @@ package main
 //	actextra      garbage after the announced body                                        (complete response)
 //	actbadver     status line `HTTP/9.9`                                                  (library decides: unknown)
 //	actshortstatus status line with a two-digit code                                      (no response)
+//	actwait<ms>   the response is sent after a pause of <ms> milliseconds                  (complete response)
 //
 // truthOf gives the ground truth of a script for a given client configuration.
 
@@ -84,7 +85,11 @@ func sharedHostile(connectMode string) *hostile {
 var sharedTurn int
 
 func newHostileMode(connectMode string) *hostile {
-	l := listenRetry()
+	return serveHostile(listenRetry(), connectMode)
+}
+
+// serveHostile serves the hostile target on a listener the caller opened.
+func serveHostile(l net.Listener, connectMode string) *hostile {
 	t := &hostile{connectMode: connectMode, l: l, Addr: l.Addr().String(), closed: make(chan struct{})}
 	go func() {
 		for {
@@ -169,6 +174,16 @@ func (t *hostile) handle(c net.Conn) {
 		if err != nil {
 			_, _ = io.WriteString(c, "HTTP/1.1 500 Bad Script\r\nContent-Length: 0\r\nConnection: close\r\n\r\n")
 			return
+		}
+		// wait<ms>: the answer (whatever the rest of the script says) comes after a pause
+		if strings.HasPrefix(sc.Act, "wait") {
+			ms, _ := strconv.Atoi(sc.Act[4:])
+			select {
+			case <-t.closed:
+				return
+			case <-time.After(time.Duration(ms) * time.Millisecond):
+			}
+			sc.Act = ""
 		}
 		switch sc.Act {
 		case "close":
